@@ -36,6 +36,13 @@ def createSpelled (s : Nix.NdSpell.Spelling) (shape : Option (List Nat)) (data :
     Option (Except IoErr DArr) :=
   (spelledArg s).map fun a => (createRules (some a) (shape.map (·.map Int.ofNat)) data).bind (createFrom compr)
 
+/-- `Block.create_data_array(dtype=v, …)` for any value of the dtype argument, also h5py's variable-length string
+dtype (what `DataArray.dtype` of a text array returns) -/
+def createWith (v : Nix.NdSpell.DtypeVal) (shape : Option (List Nat)) (data : Option Arr) (compr : Bool) :
+    Option (Except IoErr DArr) :=
+  (Nix.NdSpell.h5pyDtype Nix.Gen.DataSetDType.dataTypeMembers (Nix.Gen.DataSetDType.h5InitDtype v)).map fun a =>
+    (createRules (some a) (shape.map (·.map Int.ofNat)) data).bind (createFrom compr)
+
 /-- `H5DataSet.write_data(seq, slc)` through the compiled `h5WriteData`: the empty-source guard on the sequence,
 h5py's cast of the sequence to the element type, the write of the array it got -/
 def writeSeqGen (A : DArr) (d : Arr) (slc : IndexArg) : Option (Except IoErr DArr) :=
